@@ -1,10 +1,38 @@
 """Configuration of the C06 check (see lib/props.py)."""
 P = {'id': 'C06',
  'level': 'proof',
- 'theorems': ['norm_avoids_markers', 'std_refines_map', 'remove_loop_is_get_loop', 'sentinel_unmapped_refuted', 'tombstone_first_slot_refuted', 'iter_tombstone_refuted', 'stub_refuted'],
- 'trusted': [],
- 'assumptions': [],
- 'level_text': 'wip',
- 'level_note': 'wip',
- 'technique': 'wip',
- 'explanation': 'wip'}
+ 'theorems': ['norm_avoids_markers',
+              'std_refines_map',
+              'remove_loop_is_get_loop',
+              'sentinel_unmapped_refuted',
+              'tombstone_first_slot_refuted',
+              'iter_tombstone_refuted',
+              'stub_refuted'],
+ 'trusted': ['modelled (M+S): src/hash_map/zipora_hash_map.rs standard storage - normalize_hash/hash_key, insert + insert_standard (lazy sizing to max(capacity,16), '
+             'probe (index+i)&mask, first-tombstone reuse after the probe), resize_storage (max(2*len,32), re-insertion at the first empty slot, Err path), get_standard, '
+             'get_mut_standard, remove_standard (tombstones), len, iterator, clear_standard, FastVec capacity bookkeeping; the hasher is a function parameter; keys and values are numbers '
+             '(u64 in the harness); the three stub storages are modelled as the stubs they are; src/containers/specialized/small_map.rs (inline arrays, swap-remove, promotion, clear) is modelled '
+             'and compared on every run',
+             'spec-only cells (direct oracle against std BTreeMap, no mechanism model): GoldHashMap (4 presets + 3 custom configs, u32 and u64 links, hash cache, auto GC, freelist on/off), '
+             'GoldHashIdx (new, with_capacity, with_pool), EasyHashMap (5 builder variants), HashStrMap',
+             'std_refines_map is stated for power-of-two initial capacities (default 16, pool preset 64, with_capacity(2^k)); other capacities (with_capacity(100), custom initial_capacity 3/10/24, '
+             'capacity left by clear()) are covered by the model/implementation comparison and the oracle only',
+             'the harness hashers (ten functions incl. constant 0, constant u64::MAX, k mod 4, k<<60) are mirrored by `hasher` in Model.v; a mismatch between the two shows up as a model/implementation disagreement'],
+ 'assumptions': ['usize is 64 bits; (hash as usize) & mask and index + i do not overflow',
+                 'K: Eq is a true equality and Hash is consistent with it; the hasher is a function of the key (BuildHasher::build_hasher yields the same function every time)',
+                 'entries[probe_index] is in bounds (mask < len) - holds for every state the model reaches from a power-of-two capacity; other capacities are exercised by the comparison only',
+                 'agreement of model and code is established on the generated and enumerated histories only; allocation failure is not modelled'],
+ 'level_text': 'Machine-checked Coq theorem std_refines_map: for EVERY hasher (an arbitrary function N -> N, so also ones returning 0, u64::MAX or a constant), every power-of-two initial capacity and '
+               'EVERY finite history of insert/remove/get/get_mut/contains_key/len/iter/clear, the exact Gallina model of ZiporaHashMap\'s standard storage (after four small fix: commits) returns what a '
+               'mathematical map returns - insert/remove return the previous value exactly when present, get is the last value inserted unless removed, len is the number of live keys, iteration is a '
+               'permutation of the live entries - across lazy sizing, tombstone reuse, growth (resize never fails) and clear. Proved by a table invariant (every live slot is what a search for its key '
+               'finds) preserved by each operation, plus a pigeonhole argument for growth. Refutation theorems show that the pre-fix code (marker hashes, first-tombstone reuse, tombstone-yielding '
+               'iterator) and the three stub storage strategies do not have the property. The model is tied to the code on every run by replaying ~1200 histories in Coq (vm_compute) under ten '
+               'caller-supplied hashers and nine capacities. GoldHashMap, GoldHashIdx, EasyHashMap and HashStrMap are decided by the differential oracle only (S-only); SmallMap is modelled and compared (M+S).',
+ 'level_note': 'Trusted: Coq kernel + vm_compute; the hand-written model and its mirror of the test hashers; harness generators and the BTreeMap oracle. The theorem is about the model; keys/values are '
+               'natural numbers, Rust generics (K: Hash+Eq+Clone) are not modelled.',
+ 'technique': 'Coq refinement proof (invariant + simulation over all histories, hasher universally quantified) for the open-addressing table; refutation witnesses by vm_compute for the pre-fix code and the stubs; '
+              'model/implementation differential check on operation histories evaluated in Coq; differential oracle (std BTreeMap) over every map type, preset and adversarial hasher, incl. an enumerated '
+              'universe of all short histories over three colliding keys',
+ 'explanation': 'Unbounded refinement theorem for ZiporaHashMap standard storage (all hashers, all histories); exact-model comparison for SmallMap; differential oracle for the remaining map types; '
+                'stub storage strategies are a recorded finding.'}
